@@ -415,6 +415,9 @@ def _attr(sym, env):
     for i in range(N):
         for j in range(i):
             sym.assume(idents[i] != idents[j])
+    same = sym.B.get('same')                 # all requests concern one parameter (a finished request must not see later answers)
+    if same:
+        names, idents = names[:1] * N, idents[:1] * N
     kinds = [KINDS[sym.choice(f'kind{i}', len(KINDS))] for i in range(N)]
     if 'kind0' in sym.B:
         sym.assume(kinds[0] == sym.B['kind0'])
@@ -423,10 +426,11 @@ def _attr(sym, env):
     if dup_of is not None:
         sym.assume(dup_at >= dup_of)
     sym.apply_known()
-    w = World(sym, env, 10, [(idents[i], code, _TAIL('p', names[i][2:])) for i in range(N)])
+    M = 1 if same else N
+    w = World(sym, env, 10, [(idents[i], code, _TAIL('p', names[i][2:])) for i in range(M)])
     p, cf, up = w.p, w.cf, w.up
-    w.fetch_all(True, [(idents[i], [0] * E.type_size(code)) for i in range(N)])
-    for n in names:
+    w.fetch_all(True, [(idents[i], [0] * E.type_size(code)) for i in range(M)])
+    for n in names[:M]:
         p.toc.get_element_by_complete_name(n).mark_persistent()
     base = len(w.sent)
     now = {'reply': None}
@@ -483,6 +487,10 @@ HARNESSES += [
     Harness(f'attribution[{_KN[k]}..]', h_attr, quick=dict(requests=3, kind0=k), thorough=dict(requests=3, kind0=k, dup=True),
             timeout=(600, 2400), goals=('answered', 'same-command-twice'))
     for k in KINDS
+] + [
+    Harness('attribution[one parameter]', h_attr, quick=dict(requests=3, same=True), thorough=dict(requests=4, same=True),
+            timeout=(600, 2400), goals=('answered', 'same-command-twice'),
+            note='all requests concern the same parameter: every answer reaches the one request it answers, finished requests none'),
 ] + [
     Harness(f'misc_typing[{_NAMES[c]}]', h_attr, quick=dict(requests=1, code=c), timeout=(300, 900), goals=('answered',),
             smt_timeout=(1.5 if c in E.FLOAT_CODES else None))
